@@ -187,6 +187,25 @@ def _work_idents(task) -> core.Part:
     return p
 
 
+def _work_variants(task) -> core.Part:
+    """Feeding variants that must not matter for the P1 reader (caller wipes its buffer, empty chunks, twin instance) and
+    stability of returned readouts."""
+    seq, = task
+    p = core.Part()
+    sent, S = build(list(seq))
+    one = lambda m: (m.as_bytes, m.is_valid)  # noqa: E731
+    want = tuple((x, True) for x in sent)
+    p.add("nontrivial")
+    for how, chunks in (("bytewise", X.bytewise(S)), ("fixed7", X.fixed(S, 7, 3)), ("fixed64", X.fixed(S, 64)), ("oneshot", [S])):
+        for vname, early, final in X.feed_variants(P.new_reader, chunks, one):
+            p.add("executions")
+            p.add("events", len(chunks))
+            if early != final or final != want:
+                p.viol("clean_delivery", f"clean_delivery:variant:{'+'.join(seq)}:{how}:{vname}", f"{'+'.join(seq)} fed {how}, variant '{vname}': returned {len(final)} readouts, "
+                       f"{'changed after being returned' if early != final else 'not the readouts sent'}", {"seq": list(seq), "chunking": ["cuts", []]}, size=len(S))
+    return p
+
+
 def _work_linesweep(task) -> core.Part:
     """Readouts with one data line of L characters (L swept) and with n data lines (n swept), well below 8 KiB in total."""
     items, = task
@@ -241,6 +260,7 @@ def main(run: core.Run) -> int:
     tasks = split_tasks
     run.log(f"short streams: {len(tasks)} partitions")
     run.merge(par.pmap(_work_short, tasks, seed=run.seed))
+    run.merge(par.pmap(_work_variants, [(sq,) for sq in (("r27", "r45"), ("r_lf", "r_nocs", "r27"), ("r1k", "r45"), ("r6k",), ("r_esc", "r_esc"))], seed=run.seed))
     nv = len(ident_variants())
     run.merge(par.pmap(_work_idents, [(i, i + 2) for i in range(0, nv, 2)], seed=run.seed))
     sweep = [("linelen", n) for n in list(range(0, 200)) + [255, 256, 257, 511, 512, 513, 1023, 1024, 1025, 2047, 2048, 2049, 4095, 4096, 4097, 7000, 7900]]
